@@ -159,7 +159,7 @@ package tree
 
 //@ ghost field rootLastIdx int
 //@ func (t *Tree) getLastRootWithTx
-//@   props C01 C07
+//@   props C01 C04 C07 C08 C11
 //@   trusted
 //@   sqltext "SELECT * FROM %s ORDER BY block_num DESC, block_position DESC LIMIT 1;"
 //@   requires t != nil
